@@ -196,6 +196,23 @@ def lift_rules(chk, S, r1, r2, r3):
                     r2.require(okp and oks, f"{name} primals/series", "primals = (c_0..c_{num-1}, t); series_k = (c_{k+1}, ..., c_{k+lift_by}); series_t = (1, 0, ..., 0) of the same length",
                                f"primals {T.show(ps, 2)}, series {T.show(ss, 2)}", ev["site"], cfg)
     chk.extra["lift_grid"] = grid
+    # the same lifting with *pytree* coefficients (not arrays): nothing is asked of the values here -- the scenario exists so that the closure census of
+    # the driver (rule R-C11-D) sees every layout closure that lifting applies to new values, inside the differentiated callable too
+    for kind in ("residual", "ode"):
+        it = S.interp()
+        xdomain.install(it)
+        obj = mk_res(it, 1) if kind == "residual" else mk_ode(it, 1)
+        lifted = call(it, method(it, obj, "jet_lift"), lift_by=2)
+        fn = lifted.fields["residual_function" if kind == "residual" else "vector_field"]
+        coords = [T.atom(f"pytree_c{i}", array=False) for i in range(3)]
+        try:
+            it.call(fn, [], {"jet_coords": coords, "t": A("t")}, "<harness>")
+            target = A("rfun") if kind == "residual" else A("vfield")
+            for ev in list(it.diff_events):
+                xdomain.check_event(it, ev, lambda t, tg=target: t.op == "call" and t.args[0] is tg, A("t"))
+        except (AnalysisError, RaiseSignal) as e:
+            r3.unknown(f"lift[{kind}] with pytree coefficients", f"not analysed: {e}", PROBLEMS)
+        S.absorb(it)
     # type guards and lifted ODEs
     it = S.interp()
     for kind, obj in (("ode", mk_ode(it, 1)), ("residual", mk_res(it, 1))):
